@@ -9,11 +9,12 @@
 //             holds the wrappers' own bookkeeping requests
 //   op     :  :m n | :dm n (detector level, inline record) | :c num size | :r id|~ n | :sd $str | :sn $str n | :n n | :na n | :nt n | :nat n | :nd n | :nad n
 //             | :f id | :w id off $bytes          (id = index of the op that created the block)
-// observation: <guard> <sizeof node> <wrappers installed 0|1> then per op
+// observation: <guard> <sizeof node> <wrappers installed 0|1> <fault indices given 0|1> then per op
 //   | kind ncalls (ckind size ok)* amod overlap off req nodekind nodeval digest total reports
 //   (overlap = 1 when the user bytes + guard or the record of the new block intersect those of another live block, or each other)
-//   and finally  | :end nlive (id digest)* total reports   : the blocks still live (newest first) with their content, read before the
-//   harness releases them; total and reports after every remaining block has been released.
+//   and finally  | :end nlive (id digest)* total reports leak : the blocks still live (newest first) with their content, read before
+//   the harness releases them; total and reports after every remaining block has been released; leak = regions of the underlying
+//   allocator still allocated after that and, with wrappers, after the accountant has been stopped and destroyed.
 #include <new>
 #include <string>
 #include <vector>
@@ -180,7 +181,7 @@ int main()
             gMalloc = getCurrentMallocAllocator();
         }
         bool wrapped = getCurrentMallocAllocator() != &aMalloc && getCurrentNewAllocator() != &aNew && getCurrentNewArrayAllocator() != &aNewArr;
-        out = hx((unsigned long long)MemoryLeakDetector::memory_corruption_buffer_size ? 1 : 0) + " " + hx(sizeof(MemoryLeakDetectorNode)) + " " + hx(wrapped ? 1 : 0);
+        out = hx((unsigned long long)MemoryLeakDetector::memory_corruption_buffer_size ? 1 : 0) + " " + hx(sizeof(MemoryLeakDetectorNode)) + " " + hx(wrapped ? 1 : 0) + " " + hx(nf > 0 ? 1 : 0);
         while (!t.end()) {
             std::string op = t.sym();
             Block nb; nb.p = NULL; nb.n = 0; nb.fam = 0; nb.live = false; nb.det = false; nb.readable = false; nb.node = NULL;
@@ -272,8 +273,15 @@ int main()
         }
         for (size_t i = 0; i < blocks.size(); i++) if (blocks[i].live) release(blocks[i]);
         out += " | :end " + hx(nlive) + lives + " " + hx(det->totalMemoryLeaks(mem_leak_period_all)) + " " + hx(rep.count - rep0);
-        if (accountant) { accountant->stop(); delete accountant; gMalloc = &aMalloc; }
+        if (accountant) {                        // the accountant gives its statistics nodes back through the recording allocator: seen by the seam
+            recording = true; ncalls = 0;
+            accountant->stop(); delete accountant; gMalloc = &aMalloc;
+            recording = false;
+        }
+        out += " " + hx(nregions);               // whatever the seam handed out and never got back
         delete det;
+        for (int i = 0; i < nregions; i++) free(regions[i].base);
+        nregions = 0;
         puts(out.c_str()); fflush(stdout);
     }
     return 0;
